@@ -6,7 +6,7 @@ import gridlib as gl
 def copy_in_construction(rnd, label):
     """copies (whole, prefix and inner output ranges; copy constructor; assignment) taken while samples are parked: a part of a fixed
     target set was delivered out of order; afterwards the construction continues on the copy and on the source, one sample per call"""
-    fam = rnd.choice(["sequence", "sequence", "localp", "localp", "wavelet", "global", "fourier"])
+    fam = rnd.choice(["sequence", "sequence", "localp", "localp", "wavelet", "wavelet", "wavelet", "global", "fourier"])
     d = rnd.choice([1, 2, 2])
     outs = rnd.choice([2, 3, 4])
     if fam == "global":
@@ -37,6 +37,9 @@ def copy_in_construction(rnd, label):
         L.append("@2 assign")
     if rnd.random() < 0.4:
         L.append("@2 rtswap %d" % rnd.randint(0, 1))
+    if rnd.random() < 0.8:
+        # the copy proposes what the source would propose (initial points that are still missing first)
+        L.append("@2 candl -1 -1 classic 0" if fam in ("localp", "wavelet") else "@2 cand level 0 0 0")
     first = rnd.choice([1, 2])
     for o in (first, 3 - first):
         L.append("%sloadtarget 2 %d %d %d 0 %d" % ("@2 " if o == 2 else "", target, rnd.randint(1, 10 ** 6), rnd.choice([1, 1, 1, 2]), rnd.choice([0, 0, 2])))
@@ -88,7 +91,7 @@ def run(ctx):
     rnd = random.Random(ctx.seed + 1111)
     n = 200 if ctx.quick else 1200
     scens = [gl.history(rnd, "c%d" % i, steps=rnd.randint(4, 9), with_copy=True, with_construct=True, with_transform=True, with_coef=(i % 3 == 0)) for i in range(n)]
-    scens += [copy_in_construction(rnd, "k%d" % i) for i in range(n // 3)]
+    scens += [copy_in_construction(rnd, "k%d" % i) for i in range(n)]
     scens += [overwrite_history(rnd, "w%d" % i) for i in range(n // 4)]
     scens += [gl.nonnested_history(rnd, "g%d" % i) for i in range(n // 4)]
     gl.run_grid(ctx, [("copy", scens), ("mixed", gl.mixed_family(rnd, max(40, n // 5)))], gl.OBS_NODAL | gl.OBS_RT, "C11")
